@@ -86,7 +86,7 @@ def gen_case(rng, bucket):
         ps = []
         if commits and rng.random() < 0.8:
             ps.append(rng.choice(commits))
-            if len(commits) > 1 and rng.random() < 0.25:
+            if len(commits) > 1 and rng.random() < 0.45:
                 p2 = rng.choice(commits)
                 if p2 not in ps:
                     ps.append(p2)
